@@ -117,7 +117,9 @@ class FunctionLogger:
         wrong_format_target_function = False
         try:
             timer.start_timer("funtime")
-            fun_res = self.fun(x_orig)
+            # the target gets its own copy: one that modifies its argument in
+            # place must not corrupt the logged point
+            fun_res = self.fun(np.copy(x_orig))
             timer.stop_timer("funtime")
             if self.he_noise_flag:
                 if (type(fun_res) is tuple) and len(fun_res) == 2:
